@@ -19,6 +19,7 @@ mod triepos;
 mod locksdemo;
 mod util;
 mod wal;
+mod walker;
 
 fn arg(args: &[String], name: &str) -> Option<String> {
     args.iter().position(|a| a == name).and_then(|i| args.get(i + 1).cloned())
@@ -73,6 +74,10 @@ fn main() {
         "overflow" => overflow::run(seed, cases, &mut sink),
         "leafupd" => leafupd::run(seed, cases, &mut sink),
         "pipeline" => pipeline::run(seed, cases, &mut sink, &args),
+        "walker" => {
+            let focus = arg(&args, "--focus").unwrap_or_else(|| "all".into());
+            walker::run(seed, cases, &focus, &mut sink)
+        }
         "core-pp" => core_pp::run(seed, cases, &mut sink),
         "core-mp" => core_mp::run(seed, cases, &mut sink),
         "core-mp-corpus" => {
